@@ -151,6 +151,7 @@ def injector(w, target, workload, src='src'):
     packets listed for one instant are injected back to back in one action (a burst)."""
     env = w.env
     n = 0
+    made = []
     for it in workload:
         if len(it) < 3:
             continue
@@ -159,8 +160,13 @@ def injector(w, target, workload, src='src'):
         if d > 0:
             yield env.timeout(d)
         n += 1
-        # optional 4th field: age of the packet (it was created `age` before it reaches the element)
-        p = Packet(env.now - (it[3] if len(it) > 3 else 0), size, n, src=src, flow_id=flow, payload=('pl', n))
+        if len(it) > 4 and it[4] is not None and made:
+            # optional 5th field: hand in the very same Packet object again (what a retransmitting sender does)
+            p = made[it[4] % len(made)]
+        else:
+            # optional 4th field: age of the packet (it was created `age` before it reaches the element)
+            p = Packet(env.now - (it[3] if len(it) > 3 and it[3] else 0), size, n, src=src, flow_id=flow, payload=('pl', n))
+            made.append(p)
         target.put(p)
 
 
